@@ -35,6 +35,13 @@ impl U256 {
     pub fn from_u64(v: u64) -> Self {
         U256(SymU::konst(v))
     }
+    /// the harness registers which symbolic value a given 32-byte placeholder stands for
+    pub fn from_be_bytes(b: [u8; 32]) -> Self {
+        if let Some(v) = FROM_BE.with(|f| f.borrow().iter().find(|(k, _)| *k == b).map(|(_, v)| *v)) {
+            return U256(v);
+        }
+        U256(SymU::konst_u256(ruint::aliases::U256::from_be_bytes(b)))
+    }
 }
 
 /// identity on the 256-bit term (assumption justified by C11's checks)
@@ -68,6 +75,9 @@ impl NetworkAddress {
     pub fn as_bytes(&self) -> Vec<u8> {
         self.bytes.clone()
     }
+    pub fn as_kbucket_key(&self) -> KKey {
+        KKey::from_bytes(self.bytes.clone())
+    }
     /// XOR of the (symbolic, collision-free) hashes of the two byte strings
     pub fn distance(&self, other: &NetworkAddress) -> Distance {
         Distance(symrt::env::hash_of(&self.bytes) ^ symrt::env::hash_of(&other.bytes))
@@ -80,6 +90,34 @@ impl std::fmt::Debug for NetworkAddress {
     }
 }
 
+/// stand-in for libp2p's KBucketKey<T>: only the preimage bytes matter (hash = H[bytes])
+#[derive(Clone, Debug, PartialEq, Eq)]
+pub struct KBucketKey<T> {
+    pub bytes: Vec<u8>,
+    _t: ::std::marker::PhantomData<T>,
+}
+pub type KKey = KBucketKey<Vec<u8>>;
+impl<T> KBucketKey<T> {
+    pub fn from_bytes(bytes: Vec<u8>) -> Self {
+        KBucketKey { bytes, _t: ::std::marker::PhantomData }
+    }
+    /// libp2p: XOR of the SHA-256 digests of the two preimages, as a 256-bit integer
+    pub fn distance<U>(&self, other: &KBucketKey<U>) -> Distance {
+        Distance(symrt::env::hash_of(&self.bytes) ^ symrt::env::hash_of(&other.bytes))
+    }
+}
+impl From<PeerId> for KKey {
+    fn from(p: PeerId) -> Self {
+        KKey::from_bytes(p.to_bytes())
+    }
+}
+pub struct KPeer(pub PeerId);
+impl KPeer {
+    pub fn into_preimage(self) -> PeerId {
+        self.0
+    }
+}
+
 // ----- clocks -----
 #[derive(Clone, Copy, Debug, PartialEq, Eq, PartialOrd, Ord)]
 pub struct Instant(pub SymU<64>);
@@ -88,8 +126,25 @@ impl Instant {
     pub fn now() -> Self {
         Instant(clock_now())
     }
-    pub fn elapsed(&self) -> ::std::time::Duration {
-        ::std::time::Duration::ZERO
+    /// symbolic elapsed time (nanoseconds): now - self
+    pub fn elapsed(&self) -> SymDuration {
+        SymDuration(clock_now().wrapping_sub(self.0))
+    }
+}
+
+#[derive(Clone, Copy, Debug)]
+pub struct SymDuration(pub SymU<64>);
+impl PartialEq<::std::time::Duration> for SymDuration {
+    fn eq(&self, o: &::std::time::Duration) -> bool {
+        self.0 == SymU::konst(o.as_nanos() as u64)
+    }
+}
+impl PartialOrd<::std::time::Duration> for SymDuration {
+    fn partial_cmp(&self, o: &::std::time::Duration) -> Option<::std::cmp::Ordering> {
+        Some(self.0.cmp(&SymU::konst(o.as_nanos() as u64)))
+    }
+    fn lt(&self, o: &::std::time::Duration) -> bool {
+        self.0 < SymU::konst(o.as_nanos() as u64)
     }
 }
 impl std::ops::Add<::std::time::Duration> for Instant {
@@ -137,7 +192,17 @@ impl<'de> serde::Deserialize<'de> for SystemTime {
     }
 }
 
+pub fn register_be_bytes(b: [u8; 32], v: SymU<256>) {
+    FROM_BE.with(|f| f.borrow_mut().push((b, v)));
+}
+fn reset_be() {
+    FROM_BE.with(|f| f.borrow_mut().clear());
+}
+pub fn init_shim() {
+    symrt::register_path_reset(reset_be);
+}
 thread_local! {
+    static FROM_BE: std::cell::RefCell<Vec<([u8; 32], SymU<256>)>> = std::cell::RefCell::new(Vec::new());
     static CLOCK_FROZEN: std::cell::Cell<bool> = std::cell::Cell::new(true);
 }
 /// frozen: every now() inside one harness step observes the same instant;
@@ -175,6 +240,7 @@ pub mod libp2p {
     pub use ::libp2p::*;
     pub mod kad {
         pub use super::super::Distance as KBucketDistance;
+        pub use super::super::KBucketKey;
         pub use ::libp2p::kad::*;
         pub mod store {
             pub use ::libp2p::kad::store::*;
@@ -191,6 +257,19 @@ pub mod libp2p {
 pub mod ant_protocol {
     pub use super::{convert_distance_to_u256, NetworkAddress};
     pub use ::ant_protocol::*;
+    /// reduced message types over the shim NetworkAddress
+    pub mod messages {
+        use super::NetworkAddress;
+        use ::ant_protocol::storage::RecordType;
+        #[derive(Debug, Clone, PartialEq, Eq)]
+        pub enum Cmd {
+            Replicate { holder: NetworkAddress, keys: Vec<(NetworkAddress, RecordType)> },
+        }
+        #[derive(Debug, Clone, PartialEq, Eq)]
+        pub enum Request {
+            Cmd(Cmd),
+        }
+    }
 }
 
 pub mod ant_evm {
